@@ -6,6 +6,39 @@ props = [json.loads(l) for l in open(os.path.join(ROOT, 'properties.jsonl'))]
 
 # id -> (technique, level text, level note, design section, has_thorough)
 CHECKS = {
+ 'C01': ("bounded-exhaustive lattice / layer-sequence enumeration of the real backward pass against exact dual-number derivatives of a reference model",
+         "Quick: ring of <= 2 deviations of the single-layer lattice, dense layers, every layer sequence of <= 2 tokens (one deviation) over 5 input shapes under 7 objectives, soft-max heads; thorough: the full lattice (1.3e5 configurations incl. every stride/dilation/padding combination, rectangular kernels and planes) and sequences of <= 3 tokens with <= 2 deviations. Weight, bias, kernel and input gradients, through the layers' public backward(), Network::backward and one learn() step.",
+         "Real-valued data is a generic kink-free valuation per configuration (not enumerable); reference forward is bound to the library by C02; tolerance 2e-4 relative to the tensor's largest true derivative.", "4 C01", True),
+ 'C02': ("exhaustive enumeration of the single-layer configuration lattice and of bounded layer sequences on the real forward pass against a definitional reference, flat-vs-CxHxW differential",
+         "The FULL lattice (kernel 1-3 x stride 1-2/3 x padding 0-2 x dilation 1-2 x channels x filters x 16 planes) for convolution, deconvolution and max-pool on pairwise-distinct integer data in both input representations, the deviation ring x 5 activations, all dense n,m <= 4, and every layer sequence of <= 3 tokens; pre- and post-activation of every layer compared.",
+         "Reference operators in refmodel/layers.rs are trusted; data values are fixed exact valuations per configuration.", "4 C02", True),
+ 'C04': ("exhaustive enumeration of all (N,B,E) up to the bound x networks x optimizers against a reference trainer replaying per-sample library passes",
+         "All 126 (N,B,E) combinations incl. B=1, B not dividing N, B>N x 4 networks (one-hot dense, MLP, CNN, feedback block) x 4 optimizers x 2 objectives; final weights and per-epoch losses of learn() vs ordered mini-batch gradient-sum descent with one step per group and step number = epoch (bit-exact on every run so far).",
+         "Per-sample gradients and the optimizer step come from the library itself (decided by C01/C03); N <= 6, E <= 3.", "4 C04", False),
+ 'C08': ("explicit-state exploration of the network builder (layer sequences as states) plus exhaustive sweep of all flat sizes up to the bound",
+         "Every layer sequence of <= 3 tokens (<= 1 deviation; thorough: 2, and depth 4): announced vs formula shapes, produced vs announced shapes in a real forward pass, gradient vs parameter shapes in a real backward pass; every flat size 1..4096 (65536) in front of each spatial layer kind: accepted iff perfect square, and read as 1 x r x r in row-major order.",
+         "Only configurations whose effective kernel fits the padded input are explored, as the statement quantifies.", "4 C08", True),
+ 'C09': ("bounded-exhaustive enumeration of architectures x all dropout subsets with bit-exact differential oracles (learn vs validate, network vs dropout-free twin)",
+         "Every layer sequence of <= 3 tokens ending in a dense layer x every subset (size <= 2; thorough: all, depth 4) of droppable layers incl. layers inside feedback blocks x 1-3 epochs x with/without validation data; reported validation metrics, predictions and training flags compared with the dropout-free twin.",
+         "Dropout rate 0.5 with the library's fixed-seed mask; 3 training samples.", "4 C09", True),
+ 'C10': ("explicit-state exploration of training histories (sequences of learn() calls) with the weight-tying invariant evaluated in every state",
+         "220 block configurations (layer lists, bias, loops 1-3, 4 couplings, position) x 5 optimizers x all action sequences of length <= 2 (thorough 3) over 3 learn() actions; in every state all unrolled copies bit-identical and the reported parameter count counts shared parameters once.",
+         "History depth bound; data fixed per configuration.", "4 C10", True),
+ 'C11': ("exhaustive enumeration of block lists x loops x skip flags x accumulations on the real forward pass against a reference interpreter",
+         "12 block settings x 3 activations x loops 1-4 x 4 skip-flag combinations x 5 accumulations x dense-after on/off x 2 exact valuations = 14400 cases, incl. dense -> block of spatial layers and max-pool inside a block.",
+         "Reference interpreter in refmodel/net.rs is trusted; L <= 4.", "4 C11", False),
+ 'C12': ("exhaustive enumeration of data-set sizes around the chunk size x heads x bodies x objectives x tolerances against per-element predict",
+         "11 sizes (1..200, around 64 and 128) x 4 heads x 3 bodies x 7 objectives x 4 tolerances: predict_batch element-wise bit-equal to predict in order, predict = last activation, validate = mean loss and accuracy by the three rules.",
+         "Per-sample loss values come from the library's objective (C06 decides them).", "4 C12", False),
+ 'C13': ("exhaustive enumeration of all validation-loss trajectories over {rise,fall,equal} x tolerances, driving the real learn() black-box",
+         "All 3^(E-1) trajectories for E <= 6 (thorough 8) x tolerances 1-5 are realised exactly by the unmodified learn() (steering by one-hot AE training on a linear unit); history lengths and the stop predicate checked on what learn() returned; every commanded pattern is re-derived from the returned vector.",
+         "Stop rule read as the window of the last T recorded losses being strictly increasing.", "4 C13", True),
+ 'C16': ("exhaustive enumeration of networks x index pairs x accumulations and of all ordered pairs of connect calls, forward vs reference interpreter and backward vs dual-number derivative",
+         "All sequences of depth 2-3 (thorough 4) over 6 count-preserving layer types from a flat and a spatial input x every a <= b x 5 accumulations; every ordered pair of connect calls (acceptance rules, both connections visible); Network::backward with additive skips vs the derivative of the reference function.",
+         "Element count 4; at most two connections.", "4 C16", True),
+ 'C17': ("exhaustive enumeration of ranges x iterations x accumulations x input skips against a reference interpreter and an unrolled-network differential",
+         "6 base networks x every shape-matching range x k 1-3 x 5 accumulations x input skips x 2 valuations, pairs of disjoint ranges; overwrite loops bit-equal to the plain unrolled network.",
+         "k <= 3.", "4 C17", False),
  'C03': ("explicit-state exploration of optimizer update histories on the real optimizer (history tree, bit-exact rank/slot differentials, reference recurrences)",
          "Every gradient sequence over an 11-value alphabet up to the depth bound x every non-decreasing step-number sequence x 32 hyper-parameter settings x 3 tensor ranks is executed on the real create->validate->update API; each reached parameter is compared with the documented recurrence, across ranks (bit-exact) and across slot interleavings (bit-exact); 2048-step run-length histories for slow numeric drift.",
          "Trusts the 5 scalar reference recurrences (refmodel/optim.rs) and IEEE f32/f64 of the host; gradients outside the alphabet and depth > bound are not covered except through the run-length histories.", "4 C03", True),
